@@ -8,6 +8,9 @@ import PyModeS.Properties.C07
 import PyModeS.Properties.C08
 import PyModeS.Tie.Common
 import PyModeS.Tie.Icao
+
+-- symbolic execution of long generated `do` blocks: generous but finite budget (proof times are seconds)
+set_option maxHeartbeats 1000000
 namespace PyModeS.CGen
 open PyModeS PyModeS.Py PyModeS.CRC PyModeS.Spec
 
